@@ -354,12 +354,39 @@ pub fn make_job(ctx: &Ctx, prop: &str, id: u64) -> Job {
 }
 
 pub fn cells_job(base: Base, inflate_only: bool) -> JobKind {
-    let fields: Vec<format::Field> = faults::int_fields(&base.map).into_iter().cloned().collect();
+    let mut fields: Vec<format::Field> = faults::int_fields(&base.map).into_iter().cloned().collect();
+    // every byte of every (not too long) string as a one-byte field: invalid UTF-8 at every position
+    let nint = fields.len();
+    if !inflate_only {
+        let mut budget = 600usize;
+        for f in base.map.fields.iter().filter(|f| f.name == "string-bytes" && f.width <= 96) {
+            for i in 0..f.width {
+                if budget == 0 {
+                    break;
+                }
+                budget -= 1;
+                fields.push(format::Field {
+                    off: f.off + i,
+                    width: 1,
+                    chunk: f.chunk,
+                    name: "string-byte",
+                    kind: Kind::Value,
+                });
+            }
+        }
+    }
     let related = faults::related_values(&base.map);
     let mut cells = Vec::new();
     // bound per-base cell count: long per-entry tables (palette entries) are sampled
     let mut per_name: std::collections::BTreeMap<(&str, &str), usize> = Default::default();
     for (i, f) in fields.iter().enumerate() {
+        if i >= nint {
+            // string bytes: lone continuation byte, invalid byte, start of a 2- and of a 4-byte sequence
+            for v in [0x80u64, 0xFF, 0xC3, 0xF0] {
+                cells.push((i, v));
+            }
+            continue;
+        }
         let seen = per_name.entry((f.chunk, f.name)).or_insert(0);
         *seen += 1;
         if *seen > 6 {
@@ -566,6 +593,10 @@ fn special_items(ctx: &Ctx, prop: &str) -> Vec<(String, usize)> {
                 v.push(("zlib-split-a".into(), 1000 + k));
                 v.push(("zlib-split-b".into(), 1000 + k));
             }
+            for k in 0..if q { 12usize } else { 80 } {
+                v.push(("palette-shift-a".into(), 3000 + k));
+                v.push(("palette-shift-b".into(), 3000 + k));
+            }
             for n in if q { vec![300usize, 2000] } else { vec![300, 300, 2000, 2000, 20_000, 65_535] } {
                 v.push(("many-palette-packets".into(), n));
             }
@@ -579,7 +610,7 @@ fn special_items(ctx: &Ctx, prop: &str) -> Vec<(String, usize)> {
                 }
             }
             for b in spec::BUGS {
-                if !matches!(*b, "deep-nesting" | "many-layers" | "many-tags" | "many-frames-high-layer" | "deflate-bomb" | "tilemap-huge-extent" | "link-chain" | "bomb-with-links" | "many-palette-packets" | "chunk-size-boundary" | "zlib-split-a" | "zlib-split-b") {
+                if !matches!(*b, "deep-nesting" | "many-layers" | "many-tags" | "many-frames-high-layer" | "deflate-bomb" | "tilemap-huge-extent" | "link-chain" | "bomb-with-links" | "many-palette-packets" | "chunk-size-boundary" | "zlib-split-a" | "zlib-split-b" | "palette-shift-a" | "palette-shift-b") {
                     for _ in 0..if q { 2 } else { 12 } {
                         v.push((b.to_string(), 1));
                     }
@@ -843,7 +874,7 @@ impl Job {
 
 pub fn gen_special(rseed: u64, bug: &str, scale: usize, r: &mut Rng) -> Base {
     // the two halves of a split stream must come from the same sprite and the same draws
-    let paired = bug.starts_with("zlib-split");
+    let paired = bug.starts_with("zlib-split") || bug.starts_with("palette-shift");
     let rseed = if paired { mix(&[0x5eed, scale as u64]) } else { rseed };
     let mut local = Rng::new(rseed ^ 0x1234);
     let r: &mut Rng = if paired { &mut local } else { r };
